@@ -33,6 +33,7 @@ from translate import c19_export as X
 UNTYPED = L.UNTYPED
 SIDE = L.SIDE
 ALIAS = L.ALIAS
+STAR = L.STAR
 DIVERGE = 'c19-analysis-diverges-on-growing-tuple-types'
 
 
@@ -158,7 +159,7 @@ def check(run):
     cases = []
     meta = {}
     unexplained = []
-    known = {UNTYPED: 0, SIDE: 0, ALIAS: 0, DIVERGE: 0}
+    known = {UNTYPED: 0, SIDE: 0, ALIAS: 0, STAR: 0, DIVERGE: 0}
     hist = {}
     seen_src = set()
     stats = {'programs': 0, 'runs': 0, 'runs_raising': 0, 'annotated_nodes': 0, 'events_checked': 0,
@@ -191,7 +192,7 @@ def check(run):
             continue
         stats['annotated_nodes'] += len(r['an'].types)
         for f in r['fails']:
-            if f['cause'] in (UNTYPED, SIDE, ALIAS):
+            if f['cause'] in (UNTYPED, SIDE, ALIAS, STAR):
                 known[f['cause']] += 1
                 run.violation(describe(f), {}, classify=f['cause'])
             else:
